@@ -10,10 +10,67 @@ HIST_LEN = {'quick': 3, 'thorough': 4}
 
 
 def shards(tier, seed):
-    return _famb.shards(PROPERTY, tier, seed) + [("hist", k) for k in range(len(symhist.system_sets(seed)))]
+    from mc.props import c11
+
+    return _famb.shards(PROPERTY, tier, seed) + [("hist", k) for k in range(len(symhist.system_sets(seed)))] + [("2d", k) for k in range(len(c11.roots(tier, seed)))]
+
+
+def check_2d(root, tier, seed, res=None, only=None):
+    """2D inputs: the call must succeed, report exactly the free variables of each set's representative with values in
+    [0,1), and the flag must agree.  (Substitution is not compared for 2D inputs: the returned 2D cell is recentred and
+    rescaled along the non-periodic direction, so the statement's 'position of an atom' is not defined there.)"""
+    from matid.symmetry import SymmetryAnalyzer
+    from mc.props import c11, c14
+    from mc import present
+
+    s = c11.build_root(root, seed)
+    viol = []
+    for label, p in c11.presentations(s, tier, seed):
+        if label not in ("id", "rot.g0", "axes201", "super2x1", "flip", "vac x2") or (only is not None and label != only):
+            continue
+        if res is not None:
+            res.counters["states"] += 1
+            res.counters["evaluations"] += 1
+            res.counters["transitions"] += 1
+        try:
+            an = SymmetryAnalyzer(p.atoms(), 0.01)
+            ws = an.get_wyckoff_sets_conventional(return_parameters=True)
+            flag = an.get_has_free_wyckoff_parameters()
+        except Exception as e:
+            viol.append((label, "exception_2d", "2D input: get_wyckoff_sets_conventional(return_parameters=True) raised %r" % (e,)))
+            continue
+        anyvar = False
+        for w in ws:
+            free = {"xyz"[i] for e in w.representative for i in range(3) if c14.parse_expr(e)[0][i] != 0}
+            got = {k for k in "xyz" if getattr(w, k) is not None}
+            anyvar = anyvar or bool(free)
+            if got != free:
+                viol.append((label, "variables_2d", "2D input, set %s/%s: parameters reported for %s, representative %s has %s" % (w.wyckoff_letter, w.element, sorted(got), w.representative, sorted(free))))
+                break
+            if any(not (0 <= getattr(w, k) < 1) for k in got):
+                viol.append((label, "range_2d", "2D input, set %s/%s: parameter outside [0,1)" % (w.wyckoff_letter, w.element)))
+                break
+        else:
+            if flag != anyvar:
+                viol.append((label, "flag_2d", "2D input: has_free_wyckoff_parameters=%r but %s set carries a parameter" % (flag, "some" if anyvar else "no")))
+    return viol
 
 
 def run_shard(shard, tier, seed):
+    if shard[0] == "2d":
+        from mc.props import c11
+
+        res = Result()
+        root = c11.roots(tier, seed)[shard[1]]
+        viol = check_2d(root, tier, seed, res)
+        res.counters["traces"] += 1
+        res.nontrivial.add("2d:%s" % (root,))
+        if shard[1] % 40 == 0:
+            res.sample({"kind": "2d", "root": list(root)})
+        for label, kind, d in viol:
+            case = {"kind": "2d", "root": list(root), "presentation": label, "tier": tier, "seed": seed}
+            res.violation("c08." + kind, {"root": str(list(root)), "presentation": label}, case, "%s, %s: %s" % (list(root), label, d))
+        return res
     if shard[0] != "hist":
         return _famb.run_shard(PROPERTY, shard, tier, seed)
     res = Result()
@@ -33,6 +90,9 @@ def run_shard(shard, tier, seed):
 
 
 def replay(case):
+    if case.get("kind") == "2d":
+        viol = check_2d(tuple(case["root"]), case.get("tier", "quick"), case.get("seed", 0), None, only=case["presentation"])
+        return [{"signature": {"check": "c08." + kind, "root": str(case["root"]), "presentation": label}, "case": case, "reason": d} for label, kind, d in viol]
     if case.get("kind") != "hist":
         return _famb.replay(PROPERTY, case)
     from matid.symmetry import SymmetryAnalyzer
@@ -62,4 +122,8 @@ def describe(tier, seed):
     d["rule"] += " Plus history exploration: every sequence of length %d over the events %s + set_system(k) on one live analyser for %d pairs of representative crystals; each returned value is compared with a fresh analyser's." % (
         HIST_LEN[tier], HIST_GETTERS or "all 18 public getters", len(symhist.system_sets(seed)))
     d["bounds"]["history_length"] = HIST_LEN[tier]
+    from mc.props import c11
+
+    d["rule"] += " Plus 2D inputs: every layer root of C11 (%d) x {identity, rotation, axis relabelling, 2x1 supercell, flip, vacuum x2}: the call succeeds, exactly the free variables are reported in [0,1), flag consistent." % len(c11.roots(tier, seed))
+    d["assumptions"] = d["assumptions"] + ["for 2D inputs the substitution clause is not compared (the returned 2D cell is recentred and rescaled along the non-periodic direction)"]
     return d
